@@ -62,6 +62,12 @@ def k11(ctx):
         parts = {"decision": {"n": len(shapes), "n_dis": len(dis), "dis": dis},
                  "build": {"n": 1, "n_dis": 1 if r.get("build") else 0,
                            "dis": [{"impl": r["build"], "reference": "the generated package builds", "size": 0}] if r.get("build") else []}}
+        run = r.get("run") or {}
+        rdis = [{"impl": "generated package (%s build): %s" % (m, run.get("gen:" + m)), "reference": "source package: %s" % run.get("src:" + m),
+                 "what": "Probe() of the plain functions with deferred eta-shaped closures", "size": i}
+                for i, m in enumerate(("noinline", "default")) if run.get("gen:" + m) != run.get("src:" + m)]
+        if run:
+            parts["run"] = {"n": 2, "n_dis": len(rdis), "dis": rdis}
         return {"ok": all(p["n_dis"] == 0 for p in parts.values()), "parts": parts, "evaluations": len(shapes),
                 "distinct_nontrivial": len(shapes), "samples": [f"{x['code']} -> {x['impl']}" for x in shapes[:3]]}
     return ctx.stage("k11", run)
